@@ -816,15 +816,17 @@ def MatchExpr(e, m, tks, result = None):
     elif isinstance(e, ExprOp):
         if not isinstance(m, ExprOp):
             return False
+        if e.op != m.op or len(e.args) != len(m.args):
+            return False
         for a1, a2 in zip(e.args, m.args):
             r = MatchExpr(a1, a2, tks, result)
-            if r == False:
+            if r is False:
                 return False
         return result
     elif isinstance(e, ExprMem):
         if not isinstance(m, ExprMem):
             return False
-        if e.size != m.size:
+        if e.size != m.size or e.segm != m.segm:
             return False
         return MatchExpr(e.arg, m.arg, tks, result)
     elif isinstance(e, ExprSlice):
@@ -837,20 +839,22 @@ def MatchExpr(e, m, tks, result = None):
         if not isinstance(m, ExprCond):
             return False
         r = MatchExpr(e.cond, m.cond, tks, result)
-        if not r: return False
+        if r is False: return False
         r = MatchExpr(e.src1, m.src1, tks, result)
-        if not r: return False
+        if r is False: return False
         r = MatchExpr(e.src2, m.src2, tks, result)
-        if not r: return False
+        if r is False: return False
         return result
     elif isinstance(e, ExprCompose):
         if not isinstance(m, ExprCompose):
+            return False
+        if len(e.args) != len(m.args):
             return False
         for a1, a2 in zip(e.args, m.args):
             if a1[1] != a2[1] or a1[2] != a2[2]:
                 return False
             r = MatchExpr(a1[0], a2[0], tks, result)
-            if not r:
+            if r is False:
                 return False
         return result
     else:
